@@ -100,11 +100,16 @@ def _reg_vocab(w):
     return rx.union([w.lit("%" + r, w.colours) for r in X86_REGS])
 
 
+# operands that CONTAIN a register name without being that register: the target of an indirect branch as the operand normaliser
+# leaves it (`jmp *%rax`), an x87 stack register. A register capture must not take them for the register.
+NEAR_REGS = ["*%rax", "*%rsi", "*%rsp", "*%rbp", "*%r8", "*%eax", "*%bx", "%st(1)"]
+
+
 def regs_domain(w):
     """Input domain of the register-family capture templates (C05): every non-empty operand field is an
     x86-64 general-purpose register name as objdump prints it (%rax ... %r15b) or a small immediate."""
     cols = w.colours
-    vocab = rx.union([_reg_vocab(w), w.lit("0x1", cols), w.lit("1", cols)])
+    vocab = rx.union([_reg_vocab(w), w.lit("0x1", cols), w.lit("1", cols)] + [w.lit(t, cols) for t in NEAR_REGS])
     fch = w.chars([c for c in w.alphabet if chr(c) not in ",|"], cols)
     return _operand_fields_domain(w, inter(z3.Plus(fch), comp(vocab)))
 
